@@ -361,7 +361,8 @@ type tlGen struct {
 	ifHeight map[reflect.Type]int
 	maxDepth int
 	// knobs
-	bigStrings bool
+	bigStrings  bool
+	alwaysCanon bool
 }
 
 func newTLGen(r *Rand) *tlGen {
@@ -666,7 +667,7 @@ func (g *tlGen) object(c *reg.Ctor, depth int) reflect.Value {
 	}
 	// canonical form (usually): a bitflag member equals the presence of its group; members of a
 	// present group that cannot be nil on the wire (pointers, interfaces) are filled
-	canon := g.r.Intn(8) != 0
+	canon := g.alwaysCanon || g.r.Intn(8) != 0
 	if canon {
 		for i, f := range c.Fields {
 			if !f.HasFlag {
